@@ -323,10 +323,12 @@ class TCPPacketGenerator(Device, OutMixIn):
         if ackno == self.last_ack:
             self.dupack += 1
         else:
-            # fast recovery
-            if self.dupack > 0:
+            # a new acknowledgement ends the run of duplicates; only a run that
+            # reached the third duplicate (fast retransmit / fast recovery) has
+            # inflated the window and needs deflating
+            if self.dupack >= 3:
                 self.congestion_control.dupack_over()
-                self.dupack = 0
+            self.dupack = 0
 
         if self.dupack == 3:
             self.congestion_control.consecutive_dupacks_received()
